@@ -23,26 +23,31 @@ D = os.path.join(SPEC, "vicinal")
 BOUNDS = {
     # liveness bound: one processor, spawner 1 x 2 tasks, one late scheduler
     "S": dict(c="Tasks <- TasksS  Procs <- ProcsOne  WorkerIds <- WOneOne  PanicTasks <- PanicS  WPP = 1  Spawners <- SpTwo  "
-                "SProc <- SProcS  STasks <- STasksS  Late <- LateS  UrgentTasks <- UrgentS",
+                "SProc <- SProcS  STasks <- STasksS  Late <- LateS  UrgentTasks <- UrgentS  Gate <- GateNone",
               np=1, wpp=1, spawners=[(1, [1, 2], False), (1, [3], True)], urgent=[2], panics=[1]),
     # quick bound: 2 processors x 1 worker, spawners with 2 and 1 tasks on different processors, one late scheduler
     "Q": dict(c="Tasks <- TasksQ  Procs <- ProcsTwo  WorkerIds <- WTwo  PanicTasks <- PanicQ  WPP = 1  Spawners <- SpThree  "
-                "SProc <- SProcFull  STasks <- STasksQ  Late <- LateThree  UrgentTasks <- UrgentQ",
+                "SProc <- SProcFull  STasks <- STasksQ  Late <- LateThree  UrgentTasks <- UrgentQ  Gate <- GateNone",
               np=2, wpp=1, spawners=[(1, [1, 2], False), (2, [3], False), (1, [4], True)], urgent=[2], panics=[3]),
     # same, both early spawners on one processor (contention on one processor state)
     "Qs": dict(c="Tasks <- TasksQ  Procs <- ProcsTwo  WorkerIds <- WTwo  PanicTasks <- PanicQ  WPP = 1  Spawners <- SpThree  "
-                 "SProc <- SProcSame  STasks <- STasksQ  Late <- LateThree  UrgentTasks <- UrgentQ",
+                 "SProc <- SProcSame  STasks <- STasksQ  Late <- LateThree  UrgentTasks <- UrgentQ  Gate <- GateNone",
                np=2, wpp=1, spawners=[(1, [1, 2], False), (1, [3], False), (2, [4], True)], urgent=[2], panics=[3]),
     # one processor with two workers (notification handed over between listeners)
     "W2": dict(c="Tasks <- TasksQ  Procs <- ProcsOne  WorkerIds <- WOneTwo  PanicTasks <- PanicQ  WPP = 2  Spawners <- SpThree  "
-                 "SProc <- SProcOne  STasks <- STasksQ  Late <- LateThree  UrgentTasks <- UrgentQ",
+                 "SProc <- SProcOne  STasks <- STasksQ  Late <- LateThree  UrgentTasks <- UrgentQ  Gate <- GateNone",
                np=1, wpp=2, spawners=[(1, [1, 2], False), (1, [3], False), (1, [4], True)], urgent=[2], panics=[3]),
     # the design's bound: 2 processors x 1 worker, 2 spawners x 2 tasks, one late scheduler
     "F": dict(c="Tasks <- TasksFull  Procs <- ProcsTwo  WorkerIds <- WTwo  PanicTasks <- PanicFull  WPP = 1  Spawners <- SpThree  "
-                "SProc <- SProcFull  STasks <- STasksFull  Late <- LateThree  UrgentTasks <- UrgentFull",
+                "SProc <- SProcFull  STasks <- STasksFull  Late <- LateThree  UrgentTasks <- UrgentFull  Gate <- GateNone",
               np=2, wpp=1, spawners=[(1, [1, 2], False), (2, [3, 4], False), (1, [5], True)], urgent=[2, 3], panics=[4]),
+    # one processor x TWO workers, one spawner x 2 tasks, the body of task 1 returns only after task 2 has run: both tasks
+    # need a worker at the same time (the second spawn must wake the second sleeping worker)
+    "G": dict(c="Tasks <- TasksG  Procs <- ProcsOne  WorkerIds <- WOneTwo  PanicTasks <- None  WPP = 2  Spawners <- SpOne  "
+                "SProc <- SProcG  STasks <- STasksG  Late <- None  UrgentTasks <- None  Gate <- GateG",
+              np=1, wpp=2, spawners=[(1, [1, 2], False)], urgent=[], panics=[], gates={"1": 2}),
 }
-SAFETY_INV = "TypeOK ChannelOk NoRunAfterResolve NoLostWakeup NoLostShutdown RunsAtMostOnce RunsOnSpawnersProcessor"
+SAFETY_INV = "TypeOK ChannelOk NoRunAfterResolve NoLostWakeup NoIdleLost NoLostShutdown RunsAtMostOnce RunsOnSpawnersProcessor"
 LIVENESS = "Resolves SpawnReturns DropTerminates WorkersGone"
 
 
@@ -79,13 +84,18 @@ def code_switches(repo=None):
     wl = wl[wl.index("IterationResult::WaitingForWork"):]
     li, ri = wl.find("listener!("), wl.find(".is_empty()")
     listen_first = 0 <= li < ri
-    return {"FixEnqueue": fix_enq, "FixDrain": fix_drain, "FixSignal": fix_signal, "ListenFirst": listen_first}
+    # NotifyAdditional: every wake-up sent by spawn_internal is additive (an un-consumed earlier notification does not absorb it)
+    sp = sch[sch.index("fn spawn_internal"):] if "fn spawn_internal" in sch else sch
+    wakes = re.findall(r"wake_event\s*\.\s*(notify\w*)\s*\(", sp)
+    notify_additional = bool(wakes) and all(w.startswith("notify_additional") for w in wakes)
+    return {"FixEnqueue": fix_enq, "FixDrain": fix_drain, "FixSignal": fix_signal, "ListenFirst": listen_first,
+            "NotifyAdditional": notify_additional}
 
 
 def sw_consts(sw, labels=False, with_drop=True):
-    return "WithDrop = %s  FixEnqueue = %s  FixDrain = %s  FixSignal = %s  ListenFirst = %s  Labels = %s" % (
+    return "WithDrop = %s  FixEnqueue = %s  FixDrain = %s  FixSignal = %s  ListenFirst = %s  NotifyAdditional = %s  Labels = %s" % (
         tla_bool(with_drop), tla_bool(sw["FixEnqueue"]), tla_bool(sw["FixDrain"]), tla_bool(sw["FixSignal"]),
-        tla_bool(sw["ListenFirst"]), tla_bool(labels))
+        tla_bool(sw["ListenFirst"]), tla_bool(sw["NotifyAdditional"]), tla_bool(labels))
 
 
 def explorer_cfg(path, bound, sw, live, with_drop=True):
@@ -94,7 +104,9 @@ def explorer_cfg(path, bound, sw, live, with_drop=True):
 
 
 def gen_cfg(path, bound, sw, kind):
-    body = "CONSTANTS %s\n  %s\nINIT GenInit\nNEXT GenNext\nVIEW GenView\nCHECK_DEADLOCK FALSE\n" % (BOUNDS[bound]["c"], sw_consts(sw, True))
+    # bounds with gated task bodies never drop the pool before quiescence (a body waiting for an abandoned task would hang by itself)
+    body = "CONSTANTS %s\n  %s\nINIT GenInit\nNEXT GenNext\nVIEW GenView\nCHECK_DEADLOCK FALSE\n" % (
+        BOUNDS[bound]["c"], sw_consts(sw, True, with_drop=not BOUNDS[bound].get("gates")))
     body += "INVARIANT WitnessAll\nCONSTRAINT DepthBound\n" if kind == "witness" else "INVARIANT PrintTerminal\n"
     open(path, "w").write(body)
 
@@ -106,6 +118,9 @@ def stimulus(sid, bound, script, hw="fake", strategy="script", seed=1, early=Non
           "script": script, "strategy": strategy, "seed": seed}
     if early is not None:
         st["early_drop"] = early
+    if b.get("gates"):
+        st["gates"] = b["gates"]
+        st["early_drop"] = False
     if procmap:
         st["procmap"] = procmap
     return st
@@ -215,8 +230,8 @@ def real_procmap(np_):
 def generate(run, wd, sw, thorough):
     """Stimuli from the explorer: named situations (breadth-first witnesses) and complete random walks (-simulate)."""
     stimuli = []
-    witness_bounds = ["Qs", "W2"] + (["Q"] if thorough else [])
-    sim_bounds = [("Q", 60), ("W2", 40)] if not thorough else [("Q", 400), ("Qs", 300), ("W2", 300), ("F", 400)]
+    witness_bounds = ["Qs", "W2", "G"] + (["Q"] if thorough else [])
+    sim_bounds = [("Q", 60), ("W2", 40), ("G", 30)] if not thorough else [("Q", 400), ("Qs", 300), ("W2", 300), ("F", 400), ("G", 200)]
 
     def wit(b):
         p = os.path.join(wd, "gen_w_%s.cfg" % b)
@@ -262,10 +277,10 @@ def check(run):
     thorough = run.tier == "thorough"
     sw = code_switches()
     run.cov["code_switches"] = sw
-    fixed = sw["FixEnqueue"] and sw["FixDrain"] and sw["FixSignal"] and sw["ListenFirst"]
+    fixed = sw["FixEnqueue"] and sw["FixDrain"] and sw["FixSignal"] and sw["ListenFirst"] and sw["NotifyAdditional"]
 
     # ---- explorer against the judge: safety on the larger bounds, safety + liveness under weak fairness on the smaller
-    jobs = [("S", True, True), ("S", True, False), ("Q", False, True)]
+    jobs = [("S", True, True), ("S", True, False), ("Q", False, True), ("G", True, False)]
     if thorough:
         jobs += [("Qs", False, True), ("W2", False, True), ("Q", True, True), ("W2", True, False), ("F", False, True)]
 
@@ -314,7 +329,7 @@ def check(run):
     stimuli += extra
     nrand = 600 if thorough else 80
     for i in range(nrand):
-        b = ["Q", "Qs", "W2", "F"][i % 4]
+        b = ["Q", "Qs", "W2", "F", "G"][i % 5]
         real = (i % 5 == 0) and (rm2 if BOUNDS[b]["np"] == 2 else rm1)
         stimuli.append(stimulus("rnd-%s-%d" % (b, i), b, [], hw="real" if real else "fake", strategy="pct" if i % 3 == 0 else "random",
                                 seed=run.seed * 1000 + i, early=(i % 2 == 0), procmap=(rm2 if BOUNDS[b]["np"] == 2 else rm1) if real else None))
